@@ -227,24 +227,31 @@ def run(rep, pid, feats, n, findings, rule, gover="1.21", tapes=3, histlen=10, b
         what = {1: "the real rewriter's output tree differs from the model's (coq/Rewrite.v)",
                 2: "the model rejects this program, the real rewriter accepts it",
                 3: "the model accepts this program, the real rewriter rejects it: " + R["status"].get(name, "")}[code]
-        # intensified search for a failing input around the mismatching program: more tapes, longer histories
-        rr = cdiff.run_batch(pid + "x", [dict(prog, name="X0")], random.Random(3), tapes=16, histlen=14, budget=budget, gover=gover)
-        dd = cdiff.compare(rr["cases"], rr["out"], rr["ref"])
-        found = bool(dd) or (judge_compile and rr["status"].get("X0", "ok") != "ok")
-        if found and not (shapes[name] & set(findings)):
-            unexplained.append((name, None if not dd else None))
-            replay = {"what": what + "; and the compiled program misbehaves / is rejected",
-                      "program_go_co": pgen.render_func(name, prog["body"], "co"), "program_abstract": prog["body"],
-                      "tape": rr["cases"][dd[0]]["tape"] if dd else None, "history": rr["cases"][dd[0]]["hist"] if dd else None,
-                      "compiled_events": rr["out"][dd[0]]["events"] if dd else None,
-                      "reference_events": rr["ref"][dd[0]]["events"] if dd else None,
-                      "status": rr["status"].get("X0"), "go_version_of_user_module": gover}
-            rep.violation(rep.write_replay("structural_and_behavioural", replay))
-            return R, progs
+        # intensified search for a failing input around the mismatching programs (up to 8 of them in one batch): more tapes, longer histories
+        cand = [(ents[i][0], c) for i, c in smism[:8]]
+        rr = cdiff.run_batch(pid + "x", [dict(by[nm], name="X%d" % j) for j, (nm, _) in enumerate(cand)], random.Random(3),
+                             tapes=16, histlen=14, budget=budget, gover=gover)
+        dd_all = cdiff.compare(rr["cases"], rr["out"], rr["ref"])
+        for j, (nm, cj) in enumerate(cand):
+            dd = [i for i in dd_all if rr["cases"][i]["prog"] == "X%d" % j]
+            found = bool(dd) or (judge_compile and rr["status"].get("X%d" % j, "ok") != "ok")
+            if found and not (shapes[nm] & set(findings)):
+                unexplained.append((nm, None))
+                whatj = {1: "the real rewriter's output tree differs from the model's (coq/Rewrite.v)",
+                         2: "the model rejects this program, the real rewriter accepts it",
+                         3: "the model accepts this program, the real rewriter rejects it: " + R["status"].get(nm, "")}[cj]
+                replay = {"what": whatj + "; and the compiled program misbehaves / is rejected",
+                          "program_go_co": pgen.render_func(nm, by[nm]["body"], "co"), "program_abstract": by[nm]["body"],
+                          "tape": rr["cases"][dd[0]]["tape"] if dd else None, "history": rr["cases"][dd[0]]["hist"] if dd else None,
+                          "compiled_events": rr["out"][dd[0]]["events"] if dd else None,
+                          "reference_events": rr["ref"][dd[0]]["events"] if dd else None,
+                          "status": rr["status"].get("X%d" % j), "go_version_of_user_module": gover}
+                rep.violation(rep.write_replay("structural_and_behavioural", replay))
+                return R, progs
         replay = {"what": "correspondence broken: " + what,
                   "correspondence": "lib/structcheck.py: abstract tree of <dst>_tmp (harness/cmd/abstract) vs Rewrite.rewrite (coq/Rewrite.v), code %d" % code,
                   "program_go_co": pgen.render_func(name, prog["body"], "co"), "program_abstract": prog["body"],
-                  "searched": "16 tapes x 14 advances on this program: compiled and reference runs agree",
+                  "searched": "16 tapes x 14 advances on each of the first %d mismatching programs: compiled and reference runs agree" % len(cand),
                   "other_structural_mismatches": len(smism) - 1}
         rep.violation(rep.write_replay("structural", replay), "no-failing-input-found")
         return R, progs
